@@ -481,7 +481,7 @@ contract(F, 'TaskQueue.pop', props=('C09',),
          raises={'KeyError': lambda c: no_live(pre(c))},
          ensures=[('rep-invariant', lambda c: rep_ok(post(c))),
                   ('returns-and-removes-the-minimum', pop_result)],
-         loops={0: Loop(inv=pop_inv,
+         loops={0: Loop(early_exit=True, inv=pop_inv,
                         variant=lambda c, L: card(post(c).inQ),
                         havoc_fields=[('self', '__inQ'), ('self', '__R'), ('self', '__inF'),
                                       ('self', '_removed_counter')],
